@@ -343,4 +343,73 @@ example : roundVal 0 (.dec ⟨25, -1⟩) = .ok [.dec ⟨3, 0⟩] := by decide +k
 
 end Round
 
+/-! ### `power(exponent)` on two Integers in the assembled evaluator -/
+
+section Power
+open FP.Model.Eval
+
+/-- any base other than 0, 1, -1 raised to the 32nd power or beyond lies outside the Integer range -/
+theorem big_pow_out_of_range (b : Int) (n : Nat) (hb : 2 ≤ b.natAbs) (hn : 32 ≤ n) :
+    b ^ n > maxInt32 ∨ b ^ n < minInt32 := by
+  have h1 : (b ^ n).natAbs = b.natAbs ^ n := Int.natAbs_pow b n
+  have h2 : 2 ^ 32 ≤ b.natAbs ^ n :=
+    calc 2 ^ 32 ≤ 2 ^ n := Nat.pow_le_pow_right (by decide) hn
+      _ ≤ b.natAbs ^ n := Nat.pow_le_pow_left hb n
+  have h3 : 2 ^ 32 ≤ (b ^ n).natAbs := by rw [h1]; exact h2
+  simp only [maxInt32, minInt32]
+  omega
+
+/-- `power()` on two Integers with a non-negative exponent is EXACT OR EMPTY: the mathematical power when it is
+    an Integer of the 32-bit range, empty otherwise — never a wrapped number -/
+theorem power_int_exact_or_empty (b e : Int) (he : 0 ≤ e) :
+    powVal b e = (if b ^ e.toNat > maxInt32 ∨ b ^ e.toNat < minInt32 then [] else [.int (b ^ e.toNat)]) := by
+  have hne : ¬ e < 0 := by omega
+  unfold powVal powInt
+  simp only [hne, if_false]
+  by_cases h0 : b = 0
+  · subst h0
+    by_cases hz : e = 0
+    · subst hz; simp [maxInt32, minInt32]
+    · have : e.toNat ≠ 0 := by omega
+      simp [hz, Int.zero_pow this, maxInt32, minInt32]
+  · by_cases h1 : b = 1
+    · subst h1; simp [maxInt32, minInt32, Int.one_pow]
+    · by_cases hm : b = -1
+      · subst hm
+        have hpow : ((-1 : Int) ^ e.toNat) = if e % 2 = 0 then 1 else -1 := by
+          have hcases : e.toNat % 2 = 0 ∨ e.toNat % 2 = 1 := by omega
+          rcases hcases with h | h
+          · have : e % 2 = 0 := by omega
+            rw [if_pos this]
+            have hx : e.toNat = 2 * (e.toNat / 2) := by omega
+            rw [hx, Int.pow_mul]; simp [Int.one_pow]
+          · have : ¬ e % 2 = 0 := by omega
+            rw [if_neg this]
+            have hx : e.toNat = 2 * (e.toNat / 2) + 1 := by omega
+            rw [hx, Int.pow_succ, Int.pow_mul]; simp [Int.one_pow]
+        rw [hpow]
+        by_cases hev : e % 2 = 0
+        · simp [hev, maxInt32, minInt32]
+        · simp [hev, maxInt32, minInt32]
+      · simp only [h0, h1, hm, if_false]
+        have hb : 2 ≤ b.natAbs := by omega
+        by_cases hbig : e > 31
+        · simp only [hbig, if_true]
+          have := big_pow_out_of_range b e.toNat hb (by omega)
+          simp [this]
+        · simp only [hbig, if_false]
+          by_cases hr : b ^ e.toNat > maxInt32 ∨ b ^ e.toNat < minInt32
+          · simp [hr]
+          · simp [hr]
+
+/-- a negative exponent gives the Integer 0 — what the implementation does (the reciprocal is not an Integer;
+    FHIRPath itself would give a Decimal); recorded here so that a change of it is seen -/
+theorem power_int_negative_exponent (b e : Int) (he : e < 0) : powVal b e = [.int 0] := by
+  simp [powVal, he]
+
+example : powVal 2 31 = [] ∧ powVal 2 30 = [.int 1073741824] ∧ powVal (-2) 31 = [.int (-2147483648)] ∧
+    powVal 46341 2 = [] ∧ powVal (-1) 2147483647 = [.int (-1)] ∧ powVal 3 2147483647 = [] := by decide +kernel
+
+end Power
+
 end FP.Props.C08
